@@ -9,6 +9,7 @@
   `topo-load` engine loads (sources x filters x flags), see DESIGN.md.
 -/
 import Hw.Topo.WFLemmas0
+import Hw.Topo.InsertLemmas
 namespace Hw.Props.C01
 open Hw.Topo
 
@@ -36,5 +37,27 @@ theorem C01_numa_nodeset (d : Dump) (h : WF d) (o : Obj) (ho : o ∈ d.objs) (ht
 theorem C01_allowed_sets (d : Dump) (h : WF d) : ∃ r, d.objs[0]? = some r ∧
     subset (d.allowedCpuset.getD 0) (r.cpuset.getD 0) = true ∧ subset (d.allowedNodeset.getD 0) (r.nodeset.getD 0) = true ∧
     (flagIncludeDisallowed d = false → d.allowedCpuset = r.cpuset ∧ d.allowedNodeset = r.nodeset) := h.allowed
+
+
+/-! ### the insertion core of every discovery back end (`hwloc__insert_object_by_cpuset`, model `Hw.Topo.Ins`) -/
+
+open Hw.Topo.Ins in
+/-- every loader builds the normal-object tree by calling the insertion routine once per discovered object.  For ANY sequence of
+objects (any number, any order, any sets inside the root's — equal, nested, disjoint or intersecting ones included) inserted
+into a laminar tree, the routine never loses an object, and the final tree is laminar again: at every level the children's sets
+are pairwise disjoint and included in their parent's (the inclusion / disjointness clauses of the property, by construction),
+every object present before is still there, and a gp_index appears at most as often as it was inserted -/
+theorem C01_discovery_by_insertion (t : T) (objs : List IObj) (hL : Lam t) (hs : ∀ o ∈ objs, sub o.key t.o.key) :
+    ∃ t', insAll t objs = some t' ∧ Lam t' ∧ t'.o.key = t.o.key ∧
+      ∀ g, cntT g t ≤ cntT g t' ∧ cntT g t' ≤ cntT g t + (objs.map (·.gp)).count g :=
+  insAll_good objs t hL hs
+
+/-! non-vacuity: three objects (a package, a PU inside it, an object that intersects the package and is refused) -/
+section
+open Hw.Topo.Ins
+example : (match insAll (.node { gp := 0, type := tMACHINE, key := 0xff } [])
+      [{ gp := 1, type := tPACKAGE, key := 0x0f }, { gp := 2, type := tPU, key := 0x1 }, { gp := 3, type := tCORE, key := 0x18 }] with
+    | some t' => rows 0 t' | none => []) = [(0, 0, [], []), (1, 0, [], []), (2, 1, [], [])] := by decide +kernel
+end
 
 end Hw.Props.C01
